@@ -51,7 +51,7 @@ def rename_variable(variable: str, *, static: bool, private: bool) -> str:
     if not private and parsing.is_private(renamed_variable):
         renamed_variable = renamed_variable.lstrip("_")
 
-    if renamed_variable:
+    if renamed_variable and renamed_variable.isidentifier():
         return renamed_variable
 
-    raise RuntimeError(f"Unable to find a replacement name for {variable}")
+    return variable  # E.g. non-ascii names, for which no other spelling is known
